@@ -311,13 +311,15 @@ func (c *ClusterInfo) Sync(cluster *proxyv1alpha1.UpstreamCluster) error {
 	// update flow control
 	c.flowcontrol.Sync(cluster.Spec.FlowControl)
 
-	// update secure serving
-	if err := c.syncSecureServingConfigLocked(cluster.Spec.SecureServing); err != nil {
+	// add or update endpoints
+	if err := c.syncEndpoints(cluster.Spec.Servers); err != nil {
 		return err
 	}
 
-	// add or update endpoints
-	if err := c.syncEndpoints(cluster.Spec.Servers); err != nil {
+	// update secure serving. It must be the last step that can fail: the controller
+	// re-keys the cluster by comparing LoadServerNames() before and after a successful
+	// Sync, so a Sync that fails must not have installed new server names already
+	if err := c.syncSecureServingConfigLocked(cluster.Spec.SecureServing); err != nil {
 		return err
 	}
 
